@@ -153,7 +153,7 @@ func oracleProofs(probes [][]byte, working bool) Oracle {
 				return v
 			}
 			// GetVersionedProof agrees
-			ver := m.Versions()[i]
+			ver := m.VersionsDesc()[i]
 			for _, k := range probes[:min(4, len(probes))] {
 				p, err := t.GetVersionedProof(k, ver)
 				if err != nil {
